@@ -258,8 +258,16 @@ def run_one(ctl: explorer.Ctl, cfg: Dict[str, Any]) -> Dict[str, Any]:
                 params = {"progressToken": ptoken if kind in ("M", "M0") else "foreign"}
                 if kind != "M0":
                     params.update({"progress": i + 1, "total": 10, "message": f"m{i}"})
-                loop.env_call_at(t0 + t, 0, deliver,
-                                 {"jsonrpc": "2.0", "method": "notifications/progress", "params": params}, kind)
+                wire_n = {"jsonrpc": "2.0", "method": "notifications/progress", "params": params}
+                if kind == "NP":        # a progress notification without a params member at all
+                    del wire_n["params"]
+                elif kind == "PE":      # ... with an empty params object
+                    wire_n["params"] = {}
+                elif kind == "PT":      # ... whose token is null / of another JSON type
+                    wire_n["params"] = {"progressToken": None, "progress": 1}
+                elif kind == "PL":
+                    wire_n["params"] = {"progressToken": [ptoken], "progress": 1}
+                loop.env_call_at(t0 + t, 0, deliver, wire_n, kind)
             kw: Dict[str, Any] = {"timeout": T, "message_id": RID}
             if token is not None:
                 kw["cancellation_token"] = token
@@ -779,6 +787,22 @@ def configs_for(tier: str):
                         g.append({"T": 1.0, "traffic": "none", "cancel": c, "response": r, "method": mth, "error_code": code,
                                   "token": tok, "progress": [["M", 0.2], ["M0", 0.4]], "cb": True})
     parts["every-request-method-x-answer-kind"] = g
+    # (9) progress notifications of odd shapes (no params, empty params, null / list token) among matching ones
+    g = []
+    odd = ["NP", "PE", "PT", "PL"]
+    for o in odd:
+        for prog in ([[o, 0.2]], [["M", 0.1], [o, 0.2], ["M", 0.3]], [[o, 0.1], [o, 0.1], ["M0", 0.4]], [["F", 0.1], [o, 0.6]]):
+            for end in ("response", "timeout", "cancel"):
+                for tr in ("none", "burst"):
+                    cfg = {"T": 1.0, "traffic": tr, "progress": prog, "cb": True}
+                    if end == "response":
+                        cfg.update(response=[0.8, 0], cancel=None)
+                    elif end == "cancel":
+                        cfg.update(response=None, cancel=[0.7, 0])
+                    else:
+                        cfg.update(response=None, cancel=None)
+                    g.append(cfg)
+    parts["progress-notifications-of-odd-shapes"] = g
     return parts
 
 
